@@ -22,7 +22,7 @@ REQUIRED_THEOREMS = [
 RULE = ("orders 1..32 x generator classes {dense, scaled dense, integer with known solution, SPD, symmetric "
         "indefinite with positive diagonal, diagonally dominant, permuted/scaled triangular, graded to cond 1e10, "
         "tiny leading pivot, adversarial pivot columns (tiny diagonal, O(1) maximum mid-column, small decoys below), "
-        "sparse SPD (arrowhead, banded, block), extreme power-of-two scale 2^k (|k| 400..1000), singular PSD B*B^T} x 1..6 right-hand sides x every entry point (solve, solve_sys, invert_matrix, "
+        "sparse SPD (arrowhead, banded, block), extreme power-of-two scale 2^k (|k| 400..1000), singular PSD B*B^T, tiny-scale near-symmetric (one asymmetric pair below the absolute epsilon, in every block position)} x 1..6 right-hand sides x every entry point (solve, solve_sys, invert_matrix, "
         "Matrix::solve for Vector and Matrix, Matrix::inv) plus explicit LU / Cholesky routes; "
         "non-trivial = distinct (op, class, order, nrhs)")
 EXHAUSTIVE = {"quick": False, "thorough": False}
@@ -644,6 +644,22 @@ def strata(rng, tier, lines, cover):
             lines.append("mis_pd %d %d %s" % (n, n, vec(A)))
             lines.append("routes %s %s" % (vec(A), vec(b)))
             lines.append("entries %s %s" % (vec(A), vec(b)))
+        # tiny-scale near-symmetric: one asymmetric pair below the absolute epsilon, in every block position
+        for n in (2, 3, 4, 5, 6, 7, 8, 9, 10, 11, 12):
+            for where in (("trail", "last") if n % 2 else ("lead", "trail", "cross")):
+                A = g_tiny_nearsym(rng, n, where)
+                ncol = rng.choice([1, 2, 3])
+                s0 = max(abs(v) for v in A)
+                B = [rng.normal() * s0 for _ in range(n * ncol)]
+                cnt("strata:tiny-nearsym:" + where)
+                lines.append("# strata tiny-nearsym n=%d where=%s" % (n, where))
+                lines.append("entries %s %s" % (vec(A), vec(B)))
+                lines.append("inverses %s" % vec(A))
+                lines.append("routes %s %s" % (vec(A), vec(col(B, n, ncol, 0))))
+                lines.append("solve %s %s" % (vec(A), vec(col(B, n, ncol, 0))))
+                lines.append("solve_sys %s %s" % (vec(A), vec(B)))
+                lines.append("invert %s" % vec(A))
+                lines.append("ispd %s" % vec(A))
         # ill-conditioned A (cond up to 1e10) with B = A * X0 for a known integer X0
         for n in (3, 6, 10, 16, 24):
             for spd in (False, True):
@@ -657,7 +673,51 @@ def strata(rng, tier, lines, cover):
                 lines.append("inverses %s" % vec(A))
 
 
+def g_tiny_nearsym(rng, n, where=None, k=None):
+    """SPD (well conditioned, entries <= 1) scaled by 2^-k so that EVERY entry is far below f64::EPSILON, then made
+    asymmetric in ONE off-diagonal pair by changing the UPPER entry (the Cholesky sweep reads the lower triangle):
+    relative asymmetry 1e-3..0.5, invisible to the absolute-epsilon is_symmetric test but decisive for the solution.
+    The pair sits in the leading block, the trailing block (both indices >= n/2), at the last pair (n-2, n-1) or
+    across the blocks.  Only the exact-symmetry gate keeps the slice solvers off the Cholesky route."""
+    S = g_spd(rng, n, 1.0)
+    mx = max(abs(v) for v in S)
+    sh = math.frexp(mx)[1]
+    k = k if k is not None else rng.choice(list(range(55, 71)) + [100, 300])
+    A = [math.ldexp(v, -sh - k) for v in S]
+    h = n // 2
+    pairs = {
+        "lead": [(i, j) for i in range(h) for j in range(i + 1, h)],
+        "trail": [(i, j) for i in range(h, n) for j in range(i + 1, n)],
+        "last": [(n - 2, n - 1)] if n >= 2 else [],
+        "cross": [(i, j) for i in range(h) for j in range(h, n)],
+    }
+    where = where or rng.choice(["lead", "trail", "trail", "last", "cross"])
+    cand = pairs.get(where) or pairs["trail"] or pairs["last"] or [(0, 1)]
+    i, j = rng.choice(cand)
+    rel = 10.0 ** rng.uniform(-3, math.log10(0.5)) * rng.choice([-1.0, 1.0])
+    base = A[j * n + i]
+    if abs(base) < 0.05 * math.sqrt(A[i * n + i] * A[j * n + j]):   # make the pair matter
+        base = 0.25 * math.sqrt(A[i * n + i] * A[j * n + j])
+        A[j * n + i] = base
+    A[i * n + j] = base * (1.0 + rel)
+    return A
+
+
 # ---------------------------------------------------------------- corpus / generator
+def _c01t_corpus():
+    """round-9 seed C01t: asymmetric ONLY in the trailing block, at scale 2^-60 (an exact-symmetry test that skips the
+    trailing rows sends these to Cholesky)"""
+    out = []
+    for n, x0 in ((4, [1.0, 3.0, 2.0, -4.0]), (3, [2.0, -1.0, 3.0])):
+        M = [[4.0 if i == j else 1.0 for j in range(n)] for i in range(n)]
+        M[n - 2][n - 1] = 1.5                      # upper entry of the last pair; the lower one stays 1
+        A = [math.ldexp(M[i][j], -60) for i in range(n) for j in range(n)]
+        b = [math.ldexp(sum(M[i][j] * x0[j] for j in range(n)), -60) for i in range(n)]
+        out.append("routes %s %s" % (vec(A), vec(b)))
+        out.append("entries %s %s" % (vec(A), vec(b)))
+    return out
+
+
 def corpus():
     one, two = f2h(1.0), f2h(2.0)
     a = "4 %s %s %s %s" % (one, two, two, one)   # [[1,2],[2,1]] — F01 witness
@@ -667,7 +727,7 @@ def corpus():
     tb = vec([-2.5309690365127324e-20, 2.836045621378219e-20])
     return ["solve %s %s" % (a, b), "solve_sys %s %s" % (a, b), "invert " + a, "routes %s %s" % (a, b),
             "entries %s %s" % (a, b), "inverses " + a,
-            "solve %s %s" % (t, tb), "solve_sys %s %s" % (t, tb), "invert " + t, "entries %s %s" % (t, tb), "inverses " + t]
+            "solve %s %s" % (t, tb), "solve_sys %s %s" % (t, tb), "invert " + t, "entries %s %s" % (t, tb), "inverses " + t] + _c01t_corpus()
 
 
 def gen(rng, tier):
@@ -1103,3 +1163,87 @@ TRUSTED = [
     "and tied by run-time bit-exact correspondence only",
 ]
 ASSUMPTIONS = ["default cargo features (no blas/lapack)", "matrix element count < 2^24"]
+
+
+# --- round 9 (property owner): the routing predicates `is_symmetric` / `is_exactly_symmetric` are outside the translator subset
+# (early `return false` in a bool function), so their LOOP BOUNDS and comparison are extracted here with a narrow pattern and emitted
+# as Generated/SrcC01Pred.lean; Props/SrcTieC01Pred.lean proves the generated predicates equal to the model (a changed bound breaks it).
+import re as _re
+
+
+def _rs_fn(src, name):
+    m = _re.search(r"fn %s\s*\(m: &\[f64\]\) -> bool \{" % name, src)
+    if not m:
+        raise ValueError("fn %s not found" % name)
+    i, depth = m.end(), 1
+    while depth and i < len(src):
+        depth += {"{": 1, "}": -1}.get(src[i], 0)
+        i += 1
+    body = _re.sub(r"//[^\n]*", "", src[m.end():i - 1])
+    return " ".join(body.split())
+
+
+def _rs_nat(e):
+    """usize expression over i, n, literals with + * / ( ) only -> Lean Nat expression"""
+    e = e.strip()
+    if not _re.fullmatch(r"[in0-9+*/() ]+", e):
+        raise ValueError("bound %r outside the supported subset" % e)
+    return "(" + e + ")"
+
+
+def _pred_extract(repo):
+    from . import common as _c
+    src = open(os.path.join(repo, "src/linalg/utils.rs")).read()
+    pat = (r"let n = is_square\(m\)\.unwrap\(\); for i in (.+?)\.\.(.+?) \{ for j in (.+?)\.\.(.+?) \{ if (.+?) \{ return false; \} \} \} true")
+    out = []
+    try:
+        for name, lean, cond_rs, cond_lean in (
+            ("is_symmetric", "isSymmetric", "(m[i * n + j] - m[j * n + i]).abs() > f64::EPSILON",
+             "!(decide ((Cv.LA.eps : α) < Cv.Transc.abs (Cv.LA.rd m (i * n + j) - Cv.LA.rd m (j * n + i))))"),
+            ("is_exactly_symmetric", "isExactlySymmetric", "m[i * n + j] != m[j * n + i]",
+             "!(Cv.LA.rd m (i * n + j) != Cv.LA.rd m (j * n + i))")):
+            body = _rs_fn(src, name)
+            m = _re.fullmatch(pat, body)
+            if not m:
+                raise ValueError("%s: body no longer has the shape `for i { for j { if c { return false } } } true`: %s" % (name, body[:160]))
+            lo1, hi1, lo2, hi2, cond = (x.strip() for x in m.groups())
+            if cond != cond_rs:
+                raise ValueError("%s: comparison changed to `%s`" % (name, cond))
+            out.append("-- src/linalg/utils.rs :: %s   (for i in %s..%s, for j in %s..%s, early `return false` = `List.all`)\n"
+                       "def %s (m : List α) : Option Bool := do\n  let n ← Cv.LA.isSquare m.length\n"
+                       "  pure ((List.range' %s (%s - %s)).all fun i => (List.range' %s (%s - %s)).all fun j =>\n    %s)\n"
+                       % (name, lo1, hi1, lo2, hi2, lean, _rs_nat(lo1), _rs_nat(hi1), _rs_nat(lo1), _rs_nat(lo2), _rs_nat(hi2), _rs_nat(lo2), cond_lean))
+    except ValueError as e:
+        raise _c.SourceDrift("C01 predicates: %s" % e, {})
+    text = ("import Compute.Model.Solve\n/- GENERATED by tools/cv/c01.py (_pred_extract) from src/linalg/utils.rs on every run: loop bounds and comparison of the\n"
+            "routing predicates.  Do not edit. -/\nnamespace Cv.Src.C01Pred\n"
+            "variable {α : Type} [Add α] [Sub α] [Mul α] [Div α] [Zero α] [One α] [NatCast α]\n"
+            "  [LT α] [DecidableLT α] [LE α] [DecidableLE α] [BEq α] [Cv.Transc α]\n\n" + "\n".join(out) + "\nend Cv.Src.C01Pred\n")
+    return {"Compute/Generated/SrcC01Pred.lean": text}
+
+
+_old_extract = globals().get("EXTRACT") or (lambda repo: {})
+
+
+def EXTRACT(repo):
+    from . import common as _c
+    files, notes = {}, []
+    for fn in (_old_extract, _pred_extract):
+        try:
+            files.update(fn(repo))
+        except _c.SourceDrift as e:
+            files.update(e.files)
+            notes.append(str(e))
+    if notes:
+        raise _c.SourceDrift(" || ".join(notes), files)
+    return files
+
+
+PROOF_MODULES = PROOF_MODULES + [m for m in ['Compute.Props.SrcTieC01Pred', 'Compute.Props.C01Sym'] if m not in PROOF_MODULES]
+REQUIRED_THEOREMS = REQUIRED_THEOREMS + [t for t in [
+    'Cv.SrcTie.C01Pred.isExactlySymmetric_src', 'Cv.SrcTie.C01Pred.isSymmetric_src',
+    'Cv.C01Sym.isExactlySymmetric_iff', 'Cv.C01Sym.isExactlySymmetric_total', 'Cv.C01Sym.route_asymmetric_is_lu'] if t not in REQUIRED_THEOREMS]
+TRUSTED = [(x.replace("the predicates is_symmetric / is_positive_definite / is_exactly_symmetric / is_square / is_matrix",
+                      "the loop bounds and comparisons of is_symmetric / is_exactly_symmetric are extracted from the Rust text by a narrow pattern and proved equal to the model "
+                      "(Props/SrcTieC01Pred; their early `return false` is read as List.all); is_positive_definite (diagonal loop) / is_square / is_matrix")
+            if isinstance(x, str) else x) for x in TRUSTED]
